@@ -16,6 +16,10 @@ for out in sorted(glob.glob('/tmp/seed_C*_out')):
         meta = json.load(open(m + '/meta.json'))
         meta['id'] = sid
         meta.setdefault('confirmed', 'applied alone in a scratch worktree of /repo HEAD: 39 tests pass; demo.py exits 0 on the clean tree and 1 with the change (harness/seedtest.sh)')
+        if os.path.exists(os.path.join(dst, 'meta.json')):
+            old = json.load(open(os.path.join(dst, 'meta.json')))
+            if old.get('check_with'):
+                meta['check_with'] = old['check_with']
         meta['checks'] = RESULTS.get(sid, meta.get('checks', {}))
         json.dump(meta, open(os.path.join(dst, 'meta.json'), 'w'), indent=1)
 rows = []
